@@ -198,6 +198,10 @@ func (e *Encoder) callCommon(instr ssa.Instruction, cm *ssa.CallCommon, res ssa.
 			// a contract written for another property, with preconditions this caller was never meant to
 			// establish: it is not used here (no obligation, no assumed postcondition) - the call is a heap havoc
 			e.note("call %s: its contract belongs to %s and has preconditions; not used in this function (havoc)", callee.Name(), strings.Join(fc.Props, ","))
+		} else if e.fc != nil && e.fc.AsHavoc[cname] {
+			// `abstract call <name>`: this function's contract does not rely on that callee's contract and does not
+			// establish its preconditions: the call is a heap havoc here
+			e.note("call %s: treated as a havoc in this function (abstract call)", callee.Name())
 		} else {
 			return e.applyContract(fc, callee, args, nil, resT, st, pc, ssn)
 		}
